@@ -442,6 +442,10 @@ def run_law_job(args):
                         if sum(obs.values()) >= 200:
                             law = cambridge_pattern_law(hist[b], hist[b] if first == "own" else hist[opp], n_own, n_opp)
                             add(f"Cambridge:{b}:{lab}_patterns", obs, law)
+    if params and len(blocs) >= 2 and "byb" in locals():
+        # the profile is a mixture of the blocs' laws in the proportions given by name
+        add(f"{model}:bloc_shares", {(b,): int(byb[b].total_ballot_wt) for b in blocs},
+            {(b,): C.frac(params["prop"][b]) for b in blocs})
     out = []
     for t in tests:
         n = sum(t["obs"].values())
@@ -472,7 +476,7 @@ def gen_law_specs(seed, tier):
             base = [b * rnd.choice([1, 2, Fraction(1, 2)]) for b in base]
         return {c: C.enc(b) for c, b in zip(cands, base)}
 
-    def mk_params(nb, sizes, cohesions, name_model=False):
+    def mk_params(nb, sizes, cohesions, name_model=False, kk=0):
         blocs = ["W", "C"][:nb]
         slates = {b: [f"{b}{i + 1}" for i in range(sizes[j])] for j, b in enumerate(blocs)}
         props = {"W": C.enc(Fraction(rnd.choice([1, 2, 3]), 4))} if nb == 2 else {"W": 1}
@@ -494,6 +498,16 @@ def gen_law_specs(seed, tier):
             # cohesion dictionary always lists the slates in the opposite order to its intervals
             b = rnd.choice(blocs)
             coh[b] = {k: coh[b][k] for k in reversed(list(iv[b]))}
+        if nb == 2:
+            # same parameter set again: the four top-level dictionaries list the blocs in different
+            # orders (every second spec of a model has bloc_voter_prop reversed against the slates)
+            bits = rnd.randrange(1, 8) | (1 if kk % 2 == 0 else 0)
+            if bits & 1:
+                props = {k: props[k] for k in reversed(list(props))}
+            if bits & 2:
+                coh = {k: coh[k] for k in reversed(list(coh))}
+            if bits & 4:
+                iv = {k: iv[k] for k in reversed(list(iv))}
         return {"slates": slates, "prop": props, "cohesion": coh, "intervals": iv}
 
     def three_bloc_params(rnd_):
@@ -530,7 +544,7 @@ def gen_law_specs(seed, tier):
                 nb, sizes = 2, [2, 2] if model == "AlternatingCrossover" or k % 2 else [3, 2]
             else:
                 nb, sizes = 2, rnd.choice([[2, 2], [3, 1], [2, 1]])
-            p = mk_params(nb, sizes, cohs, name_model=model in ("name_PlackettLuce", "name_BradleyTerry", "name_Cumulative", "short_name_PlackettLuce", "name_BradleyTerry_MCMC"))
+            p = mk_params(nb, sizes, cohs, name_model=model in ("name_PlackettLuce", "name_BradleyTerry", "name_Cumulative", "short_name_PlackettLuce", "name_BradleyTerry_MCMC"), kk=k)
             if model == "slate_PlackettLuce" and k % 2 == 1:
                 p = three_bloc_params(rnd)
             extra = {}
